@@ -559,6 +559,45 @@ def oracle(c, impl, spec):
     return None if impl == spec else "spec says %s" % spec
 
 
+def sorted_dump(d):
+    """The dump of a clash-free tree with the keys of every node in byte order (values, then non-empty subtrees:
+    an empty subtree prints only its header and does not come back)."""
+    pos = [0]
+
+    def node():
+        assert d[pos[0]] == "{"
+        pos[0] += 1
+        vals, subs = [], []
+        while d[pos[0]] != "|":
+            j = d.index("=", pos[0]); k = d[pos[0]:j]; e = d.index(";", j)
+            vals.append((k, d[j + 1:e])); pos[0] = e + 1
+        pos[0] += 1
+        while d[pos[0]] != "}":
+            j = pos[0]
+            while d[j] not in "{!":
+                j += 1
+            k = d[pos[0]:j]; pos[0] = j
+            if d[j] == "!" or k == "":
+                raise ValueError      # clash, or an empty key segment (outside the printable fragment)
+            subs.append((k, node()))
+        pos[0] += 1
+        return (vals, subs)
+
+    def nonempty(n):
+        return bool(n[0]) or any(nonempty(s) for _, s in n[1])
+
+    def show(n):
+        vs = sorted(n[0], key=lambda kv: bytes.fromhex(kv[0]))
+        ss = sorted([(k, s) for k, s in n[1] if nonempty(s)], key=lambda ks: bytes.fromhex(ks[0]))
+        return "{" + "".join("%s=%s;" % kv for kv in vs) + "|" + "".join(k + show(s) for k, s in ss) + "}"
+    try:
+        if "!" in d:
+            return None
+        return show(node())
+    except Exception:
+        return None
+
+
 def oracle_api(t, impl, spec):
     """Self-consistency of the remaining public members on the implementation's own tree (op inif)."""
     m = re.search(r" C=(.*?) ov=(.*)$", impl)
@@ -587,6 +626,17 @@ def oracle_api(t, impl, spec):
             return "sub(key, true) must raise RangeError for a missing subtree, returned %s" % tt
         if mm_ != "E" and hs != "1":
             return "after a non-const sub(key) that returned, hasSub(key) must hold (got %s)" % hs
+    # report() -> readINITree(): where the tree is a printable hierarchy, the text must be accepted and every
+    # entry must come back (the re-read tree lists keys in report order: sorted)
+    rtm = re.search(r" rt=([01]+)$", spec)
+    rrm = re.search(r" rr=(\S+?):(\S+) rt=", impl)
+    if rtm and rrm and rtm.group(1)[-1] == "1":
+        if rrm.group(1) != "ok":
+            return "report() of a printable hierarchy must be readable by readINITree, got " + rrm.group(1)
+        want = sorted_dump(impl.split(" ")[1])
+        if want is not None and rrm.group(2) != want:
+            return "report() read back must give the same entries: expected %s" % want[:300]
+    spec = re.sub(r" rt=[01]+$", "", spec)
     sp = spec.split(" ub=")[0]
     if len(t) >= 7 and sp.startswith("ok ") and impl.startswith(sp + " ") and not (len(t) >= 8 and hash_in_quoted(t[7])):
         # the tree is the written hierarchy: report() must list exactly it
@@ -630,6 +680,11 @@ def build(ctx, san=True):
 
 def split_model(m):
     mm, _, spec = m.partition(" | ")
+    # rt=<0|1> (hypotheses of C12_report_roundtrip_partial hold for the model's tree) is spec information
+    rt = re.findall(r" rt=([01])", mm)
+    if rt:
+        mm = re.sub(r" rt=[01]", " rt=", mm)
+        spec = spec + " rt=" + "".join(rt)
     return round_doubles(mm), spec
 
 
@@ -642,7 +697,12 @@ def model_matches(mm, impl):
     return "both" if impl == mm else None
 
 
+def params_hook(ctx):
+    V.sh([sys.executable, os.path.join(V.VERIF, "tools", "extract_params.py"), ctx.repo], check=True)
+
+
 def run(ctx):
+    ctx.params_hook = params_hook
     V.coq_stage(ctx)
     model, impl, impl_san = build(ctx)
     quick = ctx.quick
@@ -743,6 +803,11 @@ def run(ctx):
     if ub_cases:
         ctx.notes.append("F-C12-2: %d generated documents make readINITree evaluate *(rtrim(value).rbegin()) on an empty string (undefined read, "
                          "benign with libstdc++: reads a zero byte of the SSO header); not observable on the impl, flagged by the model" % ub_cases)
+    try:
+        rep = json.load(open(os.path.join(V.VERIF, "build", "params_report.json")))
+        ctx.coverage["source_constants"] = {k: v for k, v in rep.items() if k.startswith("c12_")}
+    except Exception:
+        pass
     ctx.assumptions += ["std::num_get integer extraction is modelled (sign, digits, overflow => failbit, eofbit when the text ends inside a number)",
                         "floating-point text conversion (strtod) not modelled: get<double>/FieldVector<double,n> are outside the checked set",
                         "report() (std::map order) not modelled"]
